@@ -11,6 +11,7 @@ mod c01;
 mod c02;
 mod c03;
 mod c05;
+mod c08;
 mod c09;
 mod c10;
 mod c11;
@@ -30,6 +31,7 @@ fn main() {
         "C02" => c02::run_case,
         "C03" => c03::run_case,
         "C05" | "C06" => c05::run_case,
+        "C08" => c08::run_case,
         "C09" => c09::run_case,
         "C10" => c10::run_case,
         "C11" => c11::run_case,
